@@ -26,7 +26,7 @@ class Check:
         return ("sequential: random sequences of make_ref / make_mut (three payload types, drop-tracking, serial numbers), "
                 "directly on ValueChain, through an original Unimock and through a clone; every retained reference is re-read "
                 "after every further operation (serial + address distinctness) and the drop log is compared per operation "
-                "with the Lean model; long chains (thousands of values); concurrent: 2-4 threads lending through one shared "
+                "with the Lean model; long chains (thousands of values); a chain of 5000 values released by one make_mut on a thread with a 48 KiB stack, in its own process (the release must not recurse per node); concurrent: 2-4 threads lending through one shared "
                 "&ValueChain / &Unimock under the controlled scheduler (yield before every try_insert), ALL schedules up to the "
                 "cap, judged by: each reference reads its own serial, earlier references intact, addresses distinct, nothing "
                 "dropped before teardown, everything dropped exactly once at teardown. non-trivial = sequence with >= 2 "
@@ -45,9 +45,38 @@ class Check:
             return rep.finish()
         rng = Rng(seed * 104729 + 3)
         texts = []
+        # long chains released by one make_mut on a small-stack thread; each in its own process (a stack overflow aborts)
+        deep_texts = []
         if replay:
-            texts.append(''.join(l for l in open(replay) if not l.startswith('#')))
+            rt = ''.join(l for l in open(replay) if not l.startswith('#'))
+            if '\ndeep ' in rt:
+                deep_texts.append(rt)
+            else:
+                texts.append(rt)
         else:
+            for via in ('chain', 'unimock'):
+                for n in ([5000] if tier == "quick" else [5000, 20000]):
+                    deep_texts.append(f"scenario deep_{via}_{n}\nvia {via}\ndeep n={n} stack=49152\nend\n")
+        deep_done = 0
+        for dt in deep_texts:
+            dp = subprocess.run([CHAIN], input=dt, capture_output=True, text=True, timeout=3000)
+            mm = re.search(r'deep n=(\d+) mut_serial=(\d+) dropped=(\d+)', dp.stdout)
+            why = None
+            if dp.returncode != 0:
+                why = f"releasing a long chain aborts the process (exit status {dp.returncode}): {dp.stderr.strip()[-160:]}"
+            elif not mm:
+                why = f"unexpected output {dp.stdout[-200:]!r}"
+            elif int(mm.group(3)) != int(mm.group(1)) + 1 or int(mm.group(2)) != int(mm.group(1)) + 1:
+                why = f"{mm.group(1)} values lent + 1 through make_mut, but {mm.group(3)} dropped / make_mut read {mm.group(2)}"
+            deep_done += 1
+            if why:
+                path = engine.write_replay(self.prop, 'spec', dt, [f"property C13 violated by the real code: {why}", "replay: ./check C13 --replay <this file> (make_ref n times, then one make_mut, on a thread with the given stack size)"])
+                rep.violation(path, f"{dt.split()[1]}: {why}"[:400])
+        rep.coverage['deep_chains'] = deep_done
+        if replay and deep_texts:
+            rep.coverage.update({'evaluations': deep_done, 'distinct_nontrivial': deep_done, 'rule': self.rule(), 'samples': []})
+            return rep.finish()
+        if not replay:
             n = 600 if tier == 'quick' else 8000
             for k in range(n):
                 via = ['chain', 'unimock', 'clone'][k % 3]
@@ -62,7 +91,7 @@ class Check:
             for via in ('chain', 'unimock'):
                 texts.append(f"scenario stress_{via}\nvia {via}\nstress threads=8 per=150 rounds={rounds}\nend\n")
         text = ''.join(texts)
-        cap = 6000 if tier == 'quick' else 200000
+        cap = 3000 if tier == 'quick' else 200000
         p = subprocess.run([CHAIN], input=text, capture_output=True, text=True, env=dict(os.environ, SCHED_CAP=str(cap)), timeout=3000)
         if p.returncode != 0:
             path = engine.write_replay(self.prop, 'toolerror', text[:5000], [f"chain harness exited {p.returncode}: {p.stderr[-800:]}"])
